@@ -621,9 +621,9 @@ def check_dimensions(ctx, db):
 
 def run(ctx):
     db = ctx.db
-    check_bookkeeping(ctx, db)
-    check_frame(ctx, db)
-    check_clones(ctx, db)
+    ctx.attempt(check_bookkeeping, ctx, db)
+    ctx.attempt(check_frame, ctx, db)
+    ctx.attempt(check_clones, ctx, db)
     np_ = 0
     for name in ('to_polygons', 'element_center', 'spine'):
         f = db.fn('gdstk::RobustPath::' + name)
@@ -634,17 +634,17 @@ def run(ctx):
     for name in ('to_polygons', 'element_center', 'spine'):
         ns_ += parallel.check_steps(ctx, db.fn('gdstk::RobustPath::' + name))
     ctx.require('R-PARALLEL joint cursor jumps', ns_, 2)
-    check_units(ctx, db)
-    check_exhaust(ctx, db)
-    check_gradient(ctx, db)
-    check_trafo_algebra(ctx, db)
-    check_builders_algebra(ctx, db)
+    ctx.attempt(check_units, ctx, db)
+    ctx.attempt(check_exhaust, ctx, db)
+    ctx.attempt(check_gradient, ctx, db)
+    ctx.attempt(check_trafo_algebra, ctx, db)
+    ctx.attempt(check_builders_algebra, ctx, db)
     f = db.fn('gdstk::RobustPath::commands')
     ctx.touch(f)
     n, table = consume.check_commands(ctx, f)
     ctx.require('R-CONSUME arms', n, 10)
     ctx.extra['command_table'] = table
-    check_dimensions(ctx, db)
+    ctx.attempt(check_dimensions, ctx, db)
 
 
 MANIFEST = dict(
